@@ -60,4 +60,26 @@ def main : IO Unit := do
         if shown2 < 6 then
           shown2 := shown2 + 1
           IO.println s!"DISAGREE Compiler::add_upvalue upvalues_len={ups.length} index={idx.toNat} is_local={isl} model={reprStr (m.map (·.1))}"
+  -- emit_scope_end: every list of up to 4 initialised locals, depths 0..2, both flags; expected = one instruction per local deeper than
+  -- the scope that stays, innermost first (CloseUpvalue 56 if captured, else Pop 4), and those locals forgotten when asked
+  let locChoices : List RLocal := [("a", some 0, false), ("b", some 1, true), ("c", some 1, false), ("d", some 2, true), ("e", some 2, false)]
+  let rec lists : Nat → List (List RLocal)
+    | 0 => [[]]
+    | k + 1 => (lists k) ++ ((lists k).filter (·.length == k)).flatMap fun l => locChoices.map fun c => l ++ [c]
+  let mut shown3 := 0
+  for ls in lists 4 do
+    for d in [(0 : Int), 1, 2] do
+      for pop in [true, false] do
+        tried := tried + 1
+        let leaving := ls.reverse.takeWhile fun l => match l.2.1 with | some k => decide (d < k) | none => false
+        let wantEffs := leaving.map fun l => Rs.Eff.mk "self.emit_byte" [Rs.Arg.n (if l.2.2 then 56 else 4)]
+        let wantLocals := if pop then ls.take (ls.length - leaving.length) else ls
+        let ok : Bool := match Fns.emit_scope_end pop d ls [] with
+          | .ok ((), rest, effs) => rest == wantLocals && effs == wantEffs
+          | .panic => false
+        if !ok then
+          n := n + 1
+          if shown3 < 6 then
+            shown3 := shown3 + 1
+            IO.println s!"DISAGREE Parser::emit_scope_end locals={reprStr ls} scope_depth={d} pop_locals={pop} expected_instructions={reprStr (wantEffs.map (·.args))}"
   IO.println s!"SEARCHED resolver ties cases={tried} disagreements={n}"
